@@ -699,6 +699,7 @@ func hasFactPrefixSuffix(fs []Fact, want string) bool {
 }
 
 func instrDominates(a, b ssa.Instruction) bool {
+	a, b = locOf(a), locOf(b)
 	if a.Parent() != b.Parent() {
 		// one of them sits in a virtually inlined helper: compare at the call site
 		if la := liftTo(a, b.Parent()); la.Parent() == b.Parent() {
